@@ -115,8 +115,15 @@ def run_prep(c):
         @qp.qnode(dev)
         def circ():
             mk()
+            if c.get("sv"):     # touch the spectator wires (X X = I) so that the preparation is embedded in the full register
+                for w in order:
+                    if w not in allw:
+                        qp.X(w)
+                        qp.X(w)
             return qp.state()
         out["dev"] = vec_out(circ())
+        if c.get("sv"):
+            out["sv"] = vec_out(np.asarray(op.state_vector(wire_order=order)).reshape(-1))
     except Exception as e:
         out["dev_err"] = f"{type(e).__name__}: {str(e)[:300]}"
     try:
